@@ -179,6 +179,11 @@ def run_open_under_schedule(acc, case):
 
 def run_batch(b):
     acc = harness.Acc()
+    if b.get("real"):
+        # real threads and kernel sockets, nothing substituted: random event sequences against the hard clauses of the same model
+        from bvm import realnet
+        realnet.run_cases(acc, b["real"])
+        return acc
     for case in b["cases"]:
         if case.get("kind") == "open-sched":
             run_open_under_schedule(acc, case)
@@ -223,6 +228,9 @@ def main(tier, seed):
     cases, depth = plan(tier, seed)
     nb = 16 if tier == "quick" else 96
     batches = [{"cases": cases[i::nb]} for i in range(nb)]
+    q = tier == "quick"
+    for i in range(6 if q else 16):
+        batches.append({"real": [{"kind": "statemachine", "seed": seed * 977 + i * 29 + j, "role": ("client", "server")[(i + j) % 2]} for j in range(1 if q else 6)]})
     acc = harness.run_workers("checks.c06_statemachine", "run_batch", batches, 3400)
     harness.require_vnet_fidelity(acc)
     cells = acc.extra.pop("cells", {})
@@ -233,7 +241,7 @@ def main(tier, seed):
                            "round-robin scheduling: this property quantifies over histories, not schedules"],
                           t0, extra_cov={"states": len({c.split("|")[0] for c in cells}), "transitions": len(cells),
                                          "cells_exercised": cells, "exhaustive_depth": depth},
-                          exhaustive=True, require_counters=("events_applied", "hard_cells_judged", "h9_checked", "sequences_completed", "open_under_schedule"))
+                          exhaustive=True, require_counters=("events_applied", "hard_cells_judged", "h9_checked", "sequences_completed", "open_under_schedule", "real_loopback_ok"))
 
 
 def replay(w):
